@@ -3,8 +3,8 @@ Require Import PonyV.Base.PyBase PonyV.Model.C07Base PonyV.Model.C07Fmt PonyV.Ge
                PonyV.Proofs.C07Digits PonyV.Proofs.C07Proofs.
 (* C07Corr: the checkers of the correspondence run; required here so that they are rebuilt with the cone whenever Gen changes *)
 Require PonyV.Model.C07Corr.
-(* C07Float: PrimFloat model of the SQLite timedelta storage with its exhaustive exactness theorems (see the note in Proofs/C07Float.v) *)
-Require PonyV.Proofs.C07Float.
+(* PrimFloat model of the SQLite timedelta storage; C07FloatSweep holds the larger exhaustive sweeps (built with the cone, ~2.5 min once) *)
+Require PonyV.Model.C07Float PonyV.Proofs.C07Float PonyV.Proofs.C07FloatSweep.
 
 (* SQLite date attributes: date(999, 12, 31) is written as '999-12-31' (strftime does not pad the year) and read back as that string *)
 Theorem C07_date_below_1000_refuted :
@@ -17,5 +17,15 @@ Theorem C07_decimal_unrounded_refuted :
   dec_reload 2 (1239, -3) = (124, -2) /\ dec_eqb (dec_reload 2 (1239, -3)) (1239, -3) = false.
 Proof. exact decimal_unrounded_refuted. Qed.
 Print Assumptions C07_decimal_unrounded_refuted.
+
+(* SQLite float storage of timedelta: timedelta(days=1000000, microseconds=1) is not read back exactly (the microsecond is lost),
+   and neither is timedelta(days=77680, seconds=35904, microseconds=138270) [sqlite-timedelta-float-precision] *)
+Theorem C07_timedelta_float_precision_refuted : PonyV.Model.C07Float.exact_1e6_days_1us = false.
+Proof. exact PonyV.Proofs.C07Float.td_float_precision_refuted. Qed.
+Print Assumptions C07_timedelta_float_precision_refuted.
+
+Theorem C07_timedelta_float_precision_refuted_small : PonyV.Model.C07Float.exact_77680_days = false.
+Proof. exact PonyV.Proofs.C07Float.td_float_precision_refuted_small. Qed.
+Print Assumptions C07_timedelta_float_precision_refuted_small.
 
 Definition C07_flags : bool := Eval vm_compute in time_reloads_as_str.
